@@ -147,6 +147,37 @@ def integrators_and_integer_covariances(ctx):
                          f"{[[float(x) for x in row] for row in want_P]}", case)
 
 
+def callers_dicts_edited_later(ctx):
+    """the calibration values a filter works with are the ones it was BUILT with: editing the dict that was passed in (to build
+    the next filter, say) changes nothing about a filter that already exists"""
+    for i in range(2 if ctx.quick else 12):
+        d = gen.gen_definition(ctx.rng, n_state=2, n_control=1, n_calib=1, n_sensors=0, depth=2)
+        k = d.calibration[0]
+        d.state_model[d.state[0]] = d.state_model[d.state[0]] + k * d.state[-1] * d.control[0] * d.dt + k * d.state[0] ** 2
+        process, sensor = eh.make_noises(ctx.rng, d)
+        pt = gen.gen_point(ctx.rng, d)
+        maps = {}
+        try:
+            ekf = eh.compile_ekf(d, process, sensor, pt["cal"], ctx.rng, cse=(i % 2 == 0), maps=maps)
+        except Exception as e:
+            ctx.fail(f"compile-ekf-raises:{fk.exc_kind(e)}", repr(e)[:300], {"def": d.describe()}); continue
+        P = eh.spd(ctx.rng, 2)
+        case = {"def": d.describe(), "point": eh.point_json(pt), "P": eh.mat_json(P), "stream": "callers-dict-edited-later"}
+        ctx.case(case, True); ctx.count("stream=callers-dict-edited-later")
+        try:
+            with fk.quiet():
+                r1 = ekf.process_model(float(pt["dt"]), eh.state_obj(ekf, pt), eh.cov_obj(ekf, P), eh.control_obj(ekf, pt))
+                first = (np.array(r1.state.data, dtype=float).copy(), np.array(r1.covariance.data, dtype=float).copy())
+                for key in list(maps["calibration_map"]):
+                    maps["calibration_map"][key] = maps["calibration_map"][key] + 2.5
+                r2 = ekf.process_model(float(pt["dt"]), eh.state_obj(ekf, pt), eh.cov_obj(ekf, P), eh.control_obj(ekf, pt))
+        except Exception as e:
+            ctx.fail(f"process-model-raises:{fk.exc_kind(e)}", repr(e)[:300], case); continue
+        if not (np.array_equal(first[0], np.array(r2.state.data, dtype=float)) and np.array_equal(first[1], np.array(r2.covariance.data, dtype=float))):
+            ctx.fail("process-model-follows-callers-dict", "after the caller edited the calibration dict it had passed in, the same prediction on the "
+                     "same filter gives another result", case)
+
+
 def role_swapped_twins(ctx):
     """two filters built one after the other in this process from the SAME expressions over the SAME symbols, in which a control and
     a calibration value have exchanged roles (so every positional argument list differs although the symbol sets are equal)"""
@@ -174,6 +205,8 @@ def run(ctx):
     ndefs, npts = (14, 3) if ctx.quick else (150, 8)
     for i in range(ndefs):
         d = gen.gen_definition(ctx.rng, n_control=ctx.rng.choice([0, 1, 2, 3]), n_sensors=0, transcend=(i % 6 == 5))
+        if i % 6 == 5:
+            gen.force_sign_sensitive(ctx.rng, d)       # t*sqrt(t^2): rewriting it as if t were positive is wrong for negative t
         process, sensor = eh.make_noises(ctx.rng, d)
         if i % 4 == 2:
             # very small (but positive) per-control noises: the noise given is the noise used, whatever its magnitude
@@ -233,6 +266,7 @@ def run(ctx):
     same_filter_sequences(ctx)
     role_swapped_twins(ctx)
     integrators_and_integer_covariances(ctx)
+    callers_dicts_edited_later(ctx)
     ans = drv.run()
     for idx, gx, gP, info in pending:
         a = ans[idx]
